@@ -31,7 +31,10 @@ type c11Child struct {
 	miss bool // history missing
 }
 
-type c11DS struct{ children []*c11Child }
+type c11DS struct {
+	children []*c11Child
+	reverse  bool // serve histories newest first (datasources need not sort)
+}
 
 var c11NotFound = errors.New("verif: no history")
 
@@ -43,7 +46,11 @@ func (d *c11DS) NodeHistory(_ context.Context, id osm.NodeID) (osm.Nodes, error)
 			}
 			var ns osm.Nodes
 			for i := range c.vers {
-				ns = append(ns, c.vers[i].node)
+				if d.reverse {
+					ns = append(ns, c.vers[len(c.vers)-1-i].node)
+				} else {
+					ns = append(ns, c.vers[i].node)
+				}
 			}
 			return ns, nil
 		}
@@ -168,7 +175,7 @@ func VerifH_C11_commitRegime() {
 		}
 	}
 	ways := c11Ways(ps)
-	err := Ways(context.Background(), ways, &c11DS{children: children}, Threshold(vParamDuration()))
+	err := Ways(context.Background(), ways, &c11DS{children: children, reverse: vRange("historyNewestFirst", 0, 1) == 1}, Threshold(vParamDuration()))
 	vReach("annotated")
 	vAssert(err == nil, "no-error")
 	if err != nil {
